@@ -4,6 +4,7 @@
   configuration and the history of inputs as context.
   Verdict: "ok" or "bad <property>:<what>".
 -/
+import Rsp.Model.Discover
 import Drive.WorldOps
 import Rsp.Spec.Emit
 import Rsp.Spec.Realm
@@ -53,6 +54,7 @@ structure Mon where
   srvSt : List (String × Nat) := []                  -- per server: connection state as last seen
   queue : List (Nat × QEnt) := []    -- mirror of the reply queues, oldest first
   rxKnown : List (Bytes × Bytes × Bool) := []   -- reference answers of the C library's regexec (rxeval ops)
+  resetPending : List String := []   -- servers whose connection was re-established since their writer last ran
 
 def sections (out : String) : List String := (out.splitOn " | ")
 
@@ -486,7 +488,7 @@ def monOp0 (m : Mon) (op : String) (args : List String) (impl : List String) (tr
       let early := sends.any fun (_, b) => m.tx.any fun (s', b', t, _) => s' = name && b' == b && m.now < t + sc.retryInterval
       let tooMany := sends.any fun (_, b) => codeOf b != 12 && m.tx.any fun (s', b', _, n) => s' = name && b' == b && n ≥ sc.retryCount + 1
       let probeTwice := sends.any fun (_, b) => codeOf b == 12 && m.tx.any fun (s', b', _, _) => s' = name && b' == b
-      let m := { m with tx := (sends.map fun (_, b) =>
+      let m : Mon := { m with tx := (sends.map fun (_, b) =>
                     (name, b, m.now, 1 + ((m.tx.find? fun (s', b', _, _) => s' = name && b' == b).map (·.2.2.2)).getD 0)) ++
                   (m.tx.filter fun (s', b', _, _) => !(sends.any fun (_, b) => s' = name && b' == b)) }
       -- C11: in a writer pass an ordinary request's identifier is released only when its deadline has passed
@@ -500,8 +502,18 @@ def monOp0 (m : Mon) (op : String) (args : List String) (impl : List String) (tr
                        | none => true
                        | some (_, _, t, _) => decide (m.now < t + sc.retryInterval))
           | none => false
+      -- C12: the pass after a connection was re-established transmits every ordinary request that is outstanding, whatever its
+      -- identifier and however often it had been transmitted before
+      let notResent : Bool := m.resetPending.contains name &&
+        (((m.slots.find? (·.1 = name)).map (·.2)).getD []).any fun (i, _) =>
+          match m.fwds.find? fun f => f.srv = name && f.slot = i with
+          | some f => !(sends.any fun (_, b) => b == f.pkt)
+          | none => false
+      let early := early && !m.resetPending.contains name
+      let m : Mon := { m with resetPending := m.resetPending.filter (· ≠ name) }
       let verdict :=
-        if releasedEarly then "bad C11:identifier-of-an-unanswered-request-released-before-its-deadline"
+        if notResent then "bad C12:outstanding-request-not-transmitted-again-on-the-re-established-connection"
+        else if releasedEarly then "bad C11:identifier-of-an-unanswered-request-released-before-its-deadline"
         else if early then "bad C12:retransmitted-sooner-than-RetryInterval"
         else if tooMany then "bad C12:transmitted-more-than-RetryCount+1-times"
         else if probeTwice then "bad C12:status-server-probe-retransmitted"
@@ -651,6 +663,43 @@ def monOp0 (m : Mon) (op : String) (args : List String) (impl : List String) (tr
   | "dnsq", _ =>
     -- C07: a record handed to the caller never carries uninitialised (0x55-filled) fields
     (m, if (impl.any fun t => (t.splitOn "5555555555555555").length > 1) then "bad C07:dns-record-built-from-uninitialised-memory" else "ok")
+  | "dyndns", c :: i :: _ =>
+    -- C20: the only names the DNS is asked about are built from the realm text accepted for a lookup; nothing is asked for any other
+    match ofHex c, ofHex i with
+    | some cmd, some id =>
+      let qs := impl.filter (·.startsWith "q:")
+      (match DynRealm.dynLookup cmd id with
+       | none => (m, if impl == ["none"] && qs.isEmpty then "ok" else "bad C20:lookup-started-for-a-realm-that-must-not-start-one")
+       | some (realm, .dns t q) =>
+         let nameTok := (impl.find? (·.startsWith "name:")).getD ""
+         if qs.head? != some s!"q:{t}:{if q.isEmpty then "-" else toHex q}" then (m, "bad C20:dns-question-not-built-from-the-accepted-realm-text")
+         else if nameTok != "name:64796e" && nameTok != "name:" ++ toHex (Discover.dynamicPrefix ++ realm) then (m, "bad C20:discovered-server-not-named-after-the-realm")
+         else (m, "ok")
+       | some _ => (m, "bad-op"))
+    | _, _ => (m, "bad-op")
+  | "faultleak", [a, b] =>
+    -- C19: when everything has been shut down, no allocation site holds more blocks than it does after the same history without the fault
+    let parse (t : String) : List (String × Nat) := (t.splitOn ",").filterMap fun e => match e.splitOn "=" with
+      | [site, n] => n.toNat?.map fun n => (site, n)
+      | _ => none
+    let base := parse a
+    (m, match (parse b).find? fun (site, n) => n > ((base.find? (·.1 = site)).map (·.2)).getD 0 with
+      | some (site, n) => s!"bad C19:memory-allocated-at-{site}-never-released-after-an-allocation-failed:{n}-blocks-left"
+      | none => "ok")
+  | "faultcmp", [a, b] =>
+    -- C19: a packet that leaves although an allocation failed is the packet the operation produces, possibly lacking what could
+    -- not be allocated - never one carrying something the operation does not produce
+    if a = "-" then (m, "bad C19:request-forwarded-under-allocation-failure-that-the-operation-does-not-forward") else
+    match ofHex a, ofHex b with
+    | some base, some got =>
+      let rest := (attrsOf got).foldl (fun (acc : Option (List (UInt8 × Bytes))) x =>
+        match acc with
+        | none => none
+        | some l => if x.1 = 80 then some l else if l.contains x then some (l.erase x) else none) (some (attrsOf base))
+      if codeOf got ≠ codeOf base || idOf got ≠ idOf base then (m, "bad C19:packet-sent-under-allocation-failure-is-of-another-kind-than-the-operation-produces")
+      else if rest.isNone then (m, "bad C19:packet-sent-under-allocation-failure-carries-an-attribute-the-operation-does-not-produce")
+      else (m, "ok")
+    | _, _ => (m, "bad-op")
   | "vcert", _ => (m, vcertSpec args trToks impl)
   | "dnsqx", _ => (m, if (impl.any fun t => (t.splitOn "5555555555555555").length > 1) then "bad C07:dns-record-built-from-uninitialised-memory" else "ok")
   | "idle", [] =>
@@ -670,8 +719,13 @@ def monOp0 (m : Mon) (op : String) (args : List String) (impl : List String) (tr
       | none => "ok")
   | "tick", [n] => ({ m with now := m.now + (n.toNat?).getD 0 }, "ok")
   | "radput", _ => (m, "ok")
-  | "reset", [name] => (resync { m with tx := m.tx.filter (·.1 ≠ name) } out, "ok")   -- a reset lets everything be sent again
+  | "reset", [name] => (resync { m with tx := m.tx.filter (·.1 ≠ name), resetPending := name :: m.resetPending.filter (· ≠ name) } out, "ok")   -- a reset lets everything be sent again
   | "srvstate", _ => (resync m out, "ok")
+  | "rmserver", [name] =>
+    -- C17: the server is gone with everything it held; what was outstanding there will never be answered
+    let still := (sections out).any fun sec => sec.startsWith ("S:" ++ name ++ " ")
+    (resync { m with tx := m.tx.filter (·.1 ≠ name), fwds := m.fwds.filter (·.srv ≠ name) } out,
+     if still then "bad C17:server-object-still-present-after-its-removal" else "ok")
   | "rmclient", [k] =>
     match k.toNat? with
     | some k => (resync { m with fwds := m.fwds.filter (·.client ≠ k), queue := m.queue.filter (·.1 ≠ k) } out, "ok")
@@ -744,7 +798,7 @@ def monOp1 (m : Mon) (op : String) (args : List String) (impl : List String) (tr
     let (m, v') := monOp0 m op args impl trToks
     (m, if v ≠ "ok" then v else v')
 
-def refOps : List String := ["cfg", "client", "rq", "reply", "writer", "tick", "reset", "srvstate", "pop", "rmclient", "udplisten", "udpsend", "idle", "wrstart", "wrrun", "tcpconn"]
+def refOps : List String := ["cfg", "client", "rq", "reply", "writer", "tick", "reset", "srvstate", "pop", "rmclient", "udplisten", "udpsend", "idle", "wrstart", "wrrun", "tcpconn", "rmserver"]
 
 def monOp2 (m : Mon) (op : String) (args : List String) (impl : List String) (trToks : List String := []) : Mon × String :=
   let (m', v) := monOp1 m op args impl trToks
@@ -763,7 +817,7 @@ def monOp (m : Mon) (op : String) (args : List String) (impl : List String) (trT
     if impl.any (·.startsWith "crash:") || impl == ["skipped"] then
       (m, if n = "-1" then "bad sanitizer-or-crash" else "bad C19:crash-or-sanitizer-report-while-an-allocation-failed")
     else
-    let impl' := (impl.drop 1).filter fun t => !(t.startsWith "allocs:")
+    let impl' := (impl.drop 1).filter fun t => !(t.startsWith "allocs:") && !(t.startsWith "live:")
     match impl'.find? (·.startsWith "died:") with
     | some d =>
       let status := (((d.drop 5).toString.splitOn "@").head?.getD "0")
